@@ -5,6 +5,7 @@ package PKG
 import (
 	"errors"
 	"io"
+	"os"
 	"time"
 )
 
@@ -31,6 +32,12 @@ type vrtConn struct {
 	replied     int // replies queued so far
 	markEntries int // readEntries when the last reply was queued
 	onWrite     func(frame []byte) // ghost hook, runs inside the atomic Write step
+	// read deadlines (only when enabled): SetReadDeadline/SetDeadline arm a timer that makes
+	// the pending and later Reads fail with a timeout, like a socket
+	deadlines bool
+	rdTimer   *time.Timer
+	rdExpired bool
+	gen       int
 }
 
 var (
@@ -43,12 +50,14 @@ func (c *vrtConn) Read(p []byte) (n int, err error) {
 		vrtAtomic(func() { c.readEntries++ })
 	}
 	vrtAwait(func() bool {
-		return vrtOr(len(c.rx) > 0, len(c.rxFrame) > 0, c.eof, c.rdErr, c.closed)
+		return vrtOr(len(c.rx) > 0, len(c.rxFrame) > 0, c.eof, c.rdErr, c.closed, c.rdExpired)
 	}, func() {
 		c.reads++
 		switch {
 		case c.closed:
 			err = vrtErrUse
+		case c.rdExpired:
+			err = os.ErrDeadlineExceeded
 		case len(c.rx) > 0:
 			n = copy(p, c.rx)
 			c.rx = c.rx[n:]
@@ -106,17 +115,37 @@ func (c *vrtConn) Close() error {
 }
 
 // deadlines never fire in these harnesses; like a real socket, setting one on a closed connection fails
-func (c *vrtConn) setDeadline() (err error) {
+func (c *vrtConn) setDeadline(t time.Time, read bool) (err error) {
 	vrtAtomic(func() {
 		if c.closed {
 			err = vrtErrUse
+			return
 		}
+		if !c.deadlines || !read {
+			return
+		}
+		c.gen++
+		g := c.gen
+		c.rdExpired = false
+		if c.rdTimer != nil {
+			c.rdTimer.Stop()
+		}
+		if t.IsZero() {
+			return
+		}
+		c.rdTimer = time.AfterFunc(time.Until(t), func() {
+			vrtAtomic(func() {
+				if c.gen == g {
+					c.rdExpired = true
+				}
+			})
+		})
 	})
 	return
 }
-func (c *vrtConn) SetDeadline(t time.Time) error      { return c.setDeadline() }
-func (c *vrtConn) SetReadDeadline(t time.Time) error  { return c.setDeadline() }
-func (c *vrtConn) SetWriteDeadline(t time.Time) error { return c.setDeadline() }
+func (c *vrtConn) SetDeadline(t time.Time) error      { return c.setDeadline(t, true) }
+func (c *vrtConn) SetReadDeadline(t time.Time) error  { return c.setDeadline(t, true) }
+func (c *vrtConn) SetWriteDeadline(t time.Time) error { return c.setDeadline(t, false) }
 
 // serverSend queues one reply (called inside an atomic environment step).
 func (c *vrtConn) serverSend(payload []byte) {
